@@ -1,6 +1,8 @@
 package checks
 
 import (
+	"bytes"
+	"compress/flate"
 	"errors"
 	"fmt"
 	dsig "github.com/russellhaering/goxmldsig"
@@ -87,7 +89,7 @@ var c18Issuers = []struct {
 	{"idp-upper", samlgen.S(strings.ToUpper(samlgen.IDPEntity)), false}, {"idp-prefix", samlgen.S(samlgen.IDPEntity[:len(samlgen.IDPEntity)-2]), false}, {"empty", samlgen.S(""), false}, {"absent", nil, false},
 }
 
-var c18Sigs = []string{"valid", "valid-no-keyinfo", "absent", "untrusted-key", "encryption-use-key", "edited-after/destination", "edited-after/issuer", "edited-after/status", "edited-after/issueinstant",
+var c18Sigs = []string{"valid", "valid-no-keyinfo", "absent", "untrusted-key", "lookalike-certificate-key", "encryption-use-key", "edited-after/destination", "edited-after/issuer", "edited-after/status", "edited-after/issueinstant",
 	"relocated-under-status", "wrapped-in-unsigned", "duplicated", "attacker-signed+trusted-cert-appended", "attacker-signed+trusted-cert-first", "signature-value-truncated", "foreign-ns-signature-lookalike"}
 
 func c18Build(dest, issuer *string, st c18Status, iiOff time.Duration, iiPresent bool, sig string, trustKey *samlgen.KeyPair) []byte {
@@ -133,6 +135,8 @@ func c18Build(dest, issuer *string, st c18Status, iiOff time.Duration, iiPresent
 	case sig == "absent":
 	case sig == "untrusted-key":
 		samlgen.Sign(el, samlgen.Key("attacker"), "")
+	case sig == "lookalike-certificate-key": // attacker key under a certificate copying the IdP certificate's subject, serial and key identifiers
+		samlgen.Sign(el, samlgen.Key("lookalike1"), "")
 	case sig == "encryption-use-key":
 		samlgen.Sign(el, samlgen.Key("idpenc"), "")
 	case strings.HasPrefix(sig, "edited-after/"):
@@ -440,6 +444,116 @@ func runC18(c *core.Ctx) {
 					t.Compared()
 				})
 			}
+		}
+	}
+
+	// the pinned certificate is the only trust anchor: IDPCertificate names idp2 while the metadata lists idp1
+	c.Group("pinned-certificate-differs-from-metadata")
+	for _, signer := range []string{"idp1", "idp2", "attacker"} {
+		for _, enc := range []string{"form", "redirect", "request-get", "request-post"} {
+			signer, enc := signer, enc
+			key := fmt.Sprintf("trust=pinned-idp2-metadata-idp1/signed-by=%s/%s", signer, enc)
+			c.Case(key, func(t *core.T) {
+				t.NonTrivial()
+				sp := harness.NewSP(harness.SPOpt{Trust: "meta1"})
+				pin := samlgen.Key("idp2").CertB64
+				sp.IDPCertificate = &pin
+				saml.MaxIssueDelay, saml.MaxClockSkew = tols[0].delay, tols[0].skew
+				off, present := c18IIs[0].off(tols[0].delay, tols[0].skew)
+				doc := c18Build(c18Dests[0].v, c18Issuers[0].v, c18Statuses[0], off, present, "valid", samlgen.Key(signer))
+				err, pan := call(sp, enc, doc)
+				t.Impl(1)
+				t.Compared()
+				if pan != "" {
+					t.Fail("C18/"+enc+"/panic@"+pan[strings.LastIndex(pan, "@")+1:], "panicked: %s", pan)
+					return
+				}
+				t.Outcome(fmt.Sprint(err == nil))
+				if signer == "idp2" && err != nil {
+					t.Fail("C18/"+enc+"/rejects-valid/pinned", "%s: signed by the pinned certificate's key, refused: %s", key, privErr(err))
+				}
+				if signer != "idp2" && err == nil {
+					t.Fail("C18/"+enc+"/reports-valid/signer-is-not-the-pinned-certificate", "%s: IDPCertificate pins idp2, the response is signed by %s and reported valid", key, signer)
+				}
+			})
+		}
+	}
+
+	// redirect encoding, sequences of inputs on one process: what an earlier (failing) input left behind must not leak into the next
+	c.Group("redirect-input-sequences")
+	{
+		saml.MaxIssueDelay, saml.MaxClockSkew = tols[0].delay, tols[0].skew
+		type inp struct {
+			name  string
+			mk    func() string
+			valid bool
+		}
+		off, present := c18IIs[0].off(tols[0].delay, tols[0].skew)
+		genuine := func() []byte {
+			return c18Build(c18Dests[0].v, c18Issuers[0].v, c18Statuses[0], off, present, "valid", idp1())
+		}
+		forged := func() []byte {
+			return c18Build(c18Dests[0].v, c18Issuers[0].v, c18Statuses[0], off, present, "absent", idp1())
+		}
+		noFinal := func(b []byte) []byte { // a deflate stream that produces all its output and then lacks the final block
+			var buf bytes.Buffer
+			w, _ := flate.NewWriter(&buf, flate.BestSpeed)
+			w.Write(b)
+			w.Flush()
+			return buf.Bytes()
+		}
+		inputs := []inp{
+			{"valid", func() string { return b64(deflate(genuine())) }, true},
+			{"unsigned-forged", func() string { return b64(deflate(forged())) }, false},
+			{"genuine-stream-without-final-block", func() string { return b64(noFinal(genuine())) }, false},
+			{"genuine-stream-cut-in-half", func() string { d := deflate(genuine()); return b64(d[:len(d)/2]) }, false},
+			{"junk-root-stream-without-final-block", func() string { return b64(noFinal([]byte("<x>"))) }, false},
+			{"not-deflated", func() string { return b64(genuine()) }, false},
+			{"eleven-megabytes", func() string { return b64(paddedDeflate("<!--", "-->", 11*1024*1024)) }, false},
+		}
+		var seqs [][]int
+		for a := range inputs {
+			for b := range inputs {
+				seqs = append(seqs, []int{a, b})
+				for d := range inputs[:3] {
+					seqs = append(seqs, []int{a, b, d})
+				}
+			}
+		}
+		for _, sq := range seqs {
+			sq := sq
+			var names []string
+			for _, i := range sq {
+				names = append(names, inputs[i].name)
+			}
+			key := "redirect-seq/" + strings.Join(names, " ; ")
+			c.Case(key, func(t *core.T) {
+				t.NonTrivial()
+				sp := sps["meta1"]
+				for rep := 0; rep < 3; rep++ { // a pooled buffer may or may not come back: repeat the sequence
+					for step, i := range sq {
+						in := inputs[i]
+						v := in.mk()
+						var err error
+						_, pan := guard(func() error { err = sp.ValidateLogoutResponseRedirect(v); return nil })
+						t.Impl(1)
+						if pan != "" {
+							t.Fail("C18/redirect/panic@"+pan[strings.LastIndex(pan, "@")+1:], "panicked: %s", pan)
+							return
+						}
+						if in.valid && err != nil {
+							t.Fail("C18/redirect/sequence/rejects-valid-after-earlier-input", "%s (repetition %d, step %d): the valid response is refused after the earlier inputs: %s", key, rep+1, step+1, privErr(err))
+							return
+						}
+						if !in.valid && err == nil {
+							t.Fail("C18/redirect/sequence/reports-valid-after-earlier-input", "%s (repetition %d, step %d): input %q is reported valid", key, rep+1, step+1, in.name)
+							return
+						}
+					}
+				}
+				t.Compared()
+				t.Outcome("sequence")
+			})
 		}
 	}
 
